@@ -58,7 +58,10 @@ func init() {
 		ruleW1(c, "C02.B16")
 		ruleB17(c, "C02.B17")
 		ruleMapFromPointers(c, "C02.B19") // the block read is the block the pointers name
-		ruleB18(c, "C02.B18")        // what a request changed in the cached inode is logged: sizes and contents survive a restart
+		ruleB18(c, "C02.B18")
+		ruleB20(c, "C02.B20")
+		ruleB22(c, "C02.B22")
+		ruleV3(c, "C02.B21") // offset+count arithmetic is tested for overflow wherever it decides a reply (COMMIT's range test)        // what a request changed in the cached inode is logged: sizes and contents survive a restart
 	}
 }
 
@@ -1799,4 +1802,89 @@ func ruleB18(c *Ctx, id string) {
 		}
 	}
 	R.Check(n >= 6, id, "inventory|attribute snapshots", "?", "the MkFattr calls of the handlers are found", fmt.Sprintf("%d sites", n), fmt.Sprintf("only %d MkFattr sites found", n))
+}
+
+// ruleB20: SETATTR sets each attribute from its own part of the request.
+// The sattr3 carries, per attribute, a selector (Set_it) and a value; the
+// arms of the handler are copies of one another.  A store to Inode.Atime /
+// Inode.Mtime lies only under tests of that attribute's selector, and a value
+// taken from the request is that attribute's value.
+func ruleB20(c *Ctx, id string) {
+	V, P, R := c.V, c.P, c.R
+	R.Rule(id, "an attribute is set from its own selector and value: every store to Inode.Atime / Inode.Mtime in SETATTR's code is dominated only by tests of New_attributes.<that attribute>.Set_it (among the Set_it tests), and a request-derived value stored is New_attributes.<that attribute>.*", 2)
+	sa := c.fn(id, "nfs.(*Nfs).NFSPROC3_SETATTR")
+	if sa == nil {
+		return
+	}
+	n := 0
+	for _, sc := range scopesOf(sa) {
+		for _, w := range FieldWrites(sc.Fn) {
+			if w.Type != V.Inode || (w.Field != "Atime" && w.Field != "Mtime") || w.Element {
+				continue
+			}
+			n++
+			R.Analysed[FuncName(sc.Fn)] = true
+			attr := "." + w.Field + "."
+			ok, why := true, ""
+			// the selector tests that dominate the store
+			for _, br := range branches(sc.Fn) {
+				if br.Cond.X == nil {
+					continue
+				}
+				_, path := paramFieldPath(sc.S.resolve(stripConv(br.Cond.X)))
+				if !strings.HasSuffix(path, ".Set_it") || !strings.Contains(path, "Atime") && !strings.Contains(path, "Mtime") {
+					continue
+				}
+				dom := edgeDominates(br.Block, br.True, w.Instr.Block()) || edgeDominates(br.Block, br.False, w.Instr.Block())
+				if dom && !strings.Contains("."+path, attr) {
+					ok, why = false, "the store lies under a test of "+path
+				}
+			}
+			if _, vpath := paramFieldPath(sc.S.resolve(stripConv(w.Val))); vpath != "" && !strings.Contains("."+vpath+".", attr) {
+				ok, why = false, "the value stored is "+vpath
+			}
+			R.Check(ok, id, fmt.Sprintf("NFSPROC3_SETATTR|%s set from its own selector and value#%d", w.Field, n), P.Pos(w.Instr.Pos()), "the selector tested and the value stored belong to the attribute stored", "same attribute", why+": a request that sets the two times in different ways gets the wrong one (the server's clock for a client time, or the unset field 0/0) - stored, logged and reported")
+		}
+	}
+	R.Check(n >= 2, id, "NFSPROC3_SETATTR|time attributes", P.Pos(sa.Pos()), "SETATTR stores the access and modification times", fmt.Sprintf("%d stores", n), "fewer than the two time stores found")
+}
+
+// ruleB22: RENAME replaces an existing object only by one of the same kind
+// (a directory over a regular file, a symbolic link over a directory must be
+// refused and leave both alone).  The unlink of the replaced object lies on the
+// side of a comparison of the two objects' kinds where they are equal.
+func ruleB22(c *Ctx, id string) {
+	V, P, R := c.V, c.P, c.R
+	R.Rule(id, "RENAME replaces an object only by one of the same kind: every unlink (doDecLink) in RENAME's code is dominated by the edge 'kind of one inode == kind of another'", 1)
+	rn := c.fn(id, "nfs.(*Nfs).NFSPROC3_RENAME")
+	dl := c.fn(id, "nfs.(*Nfs).doDecLink")
+	if rn == nil || dl == nil {
+		return
+	}
+	n := 0
+	for _, sc := range scopesOf(rn) {
+		for _, ci := range P.CallsIn(sc.Fn, funcIs(dl)) {
+			n++
+			R.Analysed[FuncName(sc.Fn)] = true
+			g := guardedBy(sc.Fn, ci.Block(), func(cd Cond) (bool, bool) {
+				if cd.Y == nil {
+					return false, false
+				}
+				n1, f1, b1, _ := loadedField(cd.X)
+				n2, f2, b2, _ := loadedField(cd.Y)
+				if n1 != V.Inode || n2 != V.Inode || f1 != "Kind" || f2 != "Kind" || b1 == nil || b2 == nil || stripConv(b1) == stripConv(b2) {
+					return false, false
+				}
+				switch cd.Op {
+				case token.EQL:
+					return true, true
+				case token.NEQ:
+					return true, false
+				}
+				return false, false
+			})
+			R.Check(g, id, fmt.Sprintf("NFSPROC3_RENAME|replaced object has the kind of the renamed one#%d", n), P.Pos(ci.Pos()), "the unlink of the replaced object lies on the side where the two kinds are equal", "kinds compared, equal side", "an object can be replaced by one of another kind (the comparison covers one direction only, or is gone): RENAME of a directory onto a regular file succeeds, the file is freed")
+		}
+	}
+	R.Check(n > 0, id, "NFSPROC3_RENAME|unlinks what it replaces", P.Pos(rn.Pos()), "RENAME unlinks a replaced target", fmt.Sprintf("%d sites", n), "no doDecLink in RENAME's code")
 }
